@@ -756,7 +756,7 @@ def reaching_defs(cfg, nid, name):
     writers = [n.id for n in cfg.nodes if name in node_local_writes(n)]
     out = []
     for w in writers:
-        others = [o for o in writers if o != w]
+        others = [o for o in writers if o != w and o != nid]
         if nid in cfg.reach([w], avoid=others):
             out.append(w)
     return out
@@ -811,3 +811,64 @@ def path_values(cfg, src, dst, name, max_paths=4000):
         else:
             out.append((conds, val if seen else None))
     return out
+
+
+def list_adds(func, cfg=None):
+    """Every element-adding operation on a local list in func, in one normal form:
+    (list name, element expr, iterated source expr or None, loop variable expr or None, call node).
+    `acc.extend([E for v in S])`, `acc.extend(E for v in S)` and `for v in S: acc.append(E)` (append directly in the
+    loop body) all give (acc, E, S, v); a plain `acc.append(E)` gives (acc, E, None, None)."""
+    parents = {}
+    for p_ in ast.walk(func.node):
+        for ch in ast.iter_child_nodes(p_):
+            parents[ch] = p_
+    out = []
+    for c in walk_body_shallow(func.body):
+        if not (isinstance(c, ast.Call) and isinstance(c.func, ast.Attribute) and isinstance(c.func.value, ast.Name) and c.args):
+            continue
+        acc = c.func.value.id
+        if c.func.attr == "extend":
+            a = c.args[0]
+            if isinstance(a, (ast.ListComp, ast.GeneratorExp)) and len(a.generators) == 1 and not a.generators[0].ifs:
+                out.append((acc, a.elt, a.generators[0].iter, a.generators[0].target, c))
+            else:
+                out.append((acc, None, a, None, c))
+        elif c.func.attr == "append":
+            st = parents.get(c)
+            lp = parents.get(st) if isinstance(st, ast.Expr) else None
+            if isinstance(lp, ast.For) and st in lp.body and not lp.orelse and not any(
+                    isinstance(x, (ast.Break, ast.Continue)) for x in ast.walk(lp)) and names_in(c.args[0]) & names_in(lp.target):
+                out.append((acc, c.args[0], lp.iter, lp.target, c))
+            else:
+                out.append((acc, c.args[0], None, None, c))
+    return out
+
+
+def deferred_origins(cfg, nid, expr, _depth=0):
+    """Where the Deferred denoted by `expr` at node `nid` was created: registration calls (`d.addErrback(...)` returns
+    d) are stripped, locals are followed through their reaching definitions.  Returns a list of origin expressions
+    (ast), or None when a definition cannot be followed."""
+    if _depth > 8:
+        return None
+    e = expr
+    while isinstance(e, ast.Call) and isinstance(e.func, ast.Attribute) and e.func.attr in REG_METHODS:
+        e = e.func.value
+    if isinstance(e, ast.Name):
+        ds = reaching_defs(cfg, nid, e.id)
+        if not ds:
+            return None
+        out = []
+        for d in ds:
+            st = cfg.nodes[d].stmt
+            if not (isinstance(st, (ast.Assign, ast.AnnAssign)) and getattr(st, "value", None) is not None):
+                return None
+            tg = st.targets if isinstance(st, ast.Assign) else [st.target]
+            v = st.value
+            if not all(isinstance(t, (ast.Name, ast.Attribute)) for t in tg):
+                return None
+            sub = deferred_origins(cfg, d, v, _depth + 1)
+            if sub is None:
+                return None
+            out.extend(sub)
+        return out
+    return [e]
